@@ -1,24 +1,8 @@
 (* Proofs/Digits.v — base-2^b digit expansion, shared by C12 (gadget) and C08 (key switch). *)
 From Coq Require Import ZArith Lia List.
-From TV Require Import Base.Int32.
+From TV Require Import Base.Int32 Base.Sums.
 Import ListNotations.
 Local Open Scope Z_scope.
-
-(* sum_{p<l} f p *)
-Fixpoint zsum (l : nat) (f : nat -> Z) : Z :=
-  match l with O => 0 | S l' => zsum l' f + f l' end.
-
-Lemma zsum_ext l f g : (forall p, (p < l)%nat -> f p = g p) -> zsum l f = zsum l g.
-Proof. induction l as [|l IH]; intro H; cbn [zsum]; [reflexivity|].
-  rewrite IH by (intros; apply H; lia). rewrite H by lia. reflexivity. Qed.
-Lemma zsum_add l f g : zsum l (fun p => f p + g p) = zsum l f + zsum l g.
-Proof. induction l as [|l IH]; cbn [zsum]; [reflexivity|]. rewrite IH. ring. Qed.
-Lemma zsum_sub l f g : zsum l (fun p => f p - g p) = zsum l f - zsum l g.
-Proof. induction l as [|l IH]; cbn [zsum]; [reflexivity|]. rewrite IH. ring. Qed.
-Lemma zsum_scale l c f : zsum l (fun p => c * f p) = c * zsum l f.
-Proof. induction l as [|l IH]; cbn [zsum]; [ring|]. rewrite IH. ring. Qed.
-Lemma zsum_zero l : zsum l (fun _ => 0) = 0.
-Proof. induction l as [|l IH]; cbn [zsum]; lia. Qed.
 
 (* position (shift) of digit p when W bits are cut in fields of b bits from the top *)
 Definition shp (W b : Z) (p : nat) : Z := W - (Z.of_nat p + 1) * b.
